@@ -142,6 +142,7 @@ class choice_point:
         else:
             self.matches_cur = self.matches = None
             return False
+        self._reset_iters()
         return self.reduce_atoms([])
 
     @property
